@@ -48,7 +48,7 @@ func (a TriangleIByIndex) Less(i, j int) bool {
 	if a[i][0] == a[j][0] && a[i][1] < a[j][1] {
 		return true
 	}
-	if a[i][1] == a[j][1] && a[i][2] < a[j][2] {
+	if a[i][0] == a[j][0] && a[i][1] == a[j][1] && a[i][2] < a[j][2] {
 		return true
 	}
 	return false
